@@ -124,7 +124,10 @@ def run(ctx):
         "key templates, hybrid/subtle, keysets of two raw keys with the matching key second) x plaintext length class x context "
         "class; every logged input is a copy Tink never had access to; per ciphertext: Tink->reference decryption (and of a second "
         "Encrypt from the same plaintext/context buffers), Tink's own decryption TWICE from the same buffer and once more after a "
-        "failing wrong-context attempt on the same buffer (each call its own event), and Decrypt of mutations of every region (prefix, encapsulated key incl. off-curve / small-order / "
+        "failing wrong-context attempt on the same buffer (each call its own event), sessions on ONE primitive instance whose "
+        "context info and plaintext / ciphertext come from ONE reused buffer each, overwritten in place between calls (same length "
+        "with new contents, shorter, longer, empty, back; after a successful Decrypt the context buffer is overwritten with other "
+        "contents of the same length and the same ciphertext must then be rejected), and Decrypt of mutations of every region (prefix, encapsulated key incl. off-curve / small-order / "
         "negated points, payload, tag), of the context, with another private key, at cut points (all of them in the thorough tier "
         "for one ciphertext per configuration) and extensions; plus reference-made ciphertexts (TLC, chosen ephemeral keys) "
         "decrypted by Tink. Every event is judged by TLC against HPKE.tla / XWing.tla / ECIES.tla")
@@ -155,7 +158,8 @@ def run(ctx):
         kinds[k] = kinds.get(k, 0) + 1
     ctx.cov["event_kinds"] = kinds
     for need in () if os.environ.get("VERIF_C06_FILTER") else ("encrypt/tink", "encrypt/tink-again-same-buffers", "decrypt/own", "decrypt/again-same-buffer",
-                                                                  "decrypt/after-wrong-context-same-buffer", "encrypt/tink-2rawkeys", "decrypt/reference-made", "decrypt/enc-flip", "decrypt/payload-flip",
+                                                                  "decrypt/after-wrong-context-same-buffer", "encrypt/tink-2rawkeys", "decrypt/reference-made",
+                                                                  "encrypt/seq", "decrypt/seq-right", "decrypt/seq-context-overwritten", "decrypt/enc-flip", "decrypt/payload-flip",
                  "decrypt/prefix-start", "decrypt/info-flip", "decrypt/other-key", "decrypt/cut"):
         if not kinds.get(need):
             raise vlib.Infra("coverage hole: no %s event was recorded" % need)
